@@ -54,6 +54,13 @@ def cases(tier, seed):
     # larger scope: cycles of hundreds of samples with masked blocks of 255 / 256 / 257 / 512 samples and scattered masks
     for ei in range(3):
         yield (('BLOCKS', 0), ei, seed, 0, 0)
+    # larger scope: cycles of 5000 samples whose single plateau / reversal sits exactly on a power-of-two sample index
+    for ei in range(3):
+        yield (('SEAMS', 0), ei, seed, 0, 0)
+        yield (('SEAMS', 1), ei, seed, 0, 0)
+    # tolerances less than 1e-6 apart used one after the other in one process, on cycles that start / end between them
+    for ei in range(3):
+        yield (('NEAR-EDGES', 0), ei, seed, 0, 0)
     for n in range(2, b['templates'] + 1):
         for combo in itertools.product(range(len(TEMPLATES)), repeat=n):
             s = tuple(v for t in combo for v in TEMPLATES[t])
@@ -112,6 +119,19 @@ def check_case(case):
     if len(s) == 2 and s[0] == 'LONG':
         from .c12 import long_phases
         phase = dict(long_phases(seed))[s[1]]
+    elif len(s) == 2 and s[0] == 'SEAMS':
+        parts = []
+        for pos in (256, 512, 1024, 2048, 4096, 1000, None, 2047, 2049):
+            p_ = (np.arange(5000) + 0.37) / 5000 * 2 * np.pi
+            if pos is not None:
+                if s[1] == 0:
+                    p_[pos] = p_[pos - 1]                      # plateau between samples pos-1 and pos
+                else:
+                    p_[pos - 1], p_[pos] = p_[pos], p_[pos - 1]  # reversal
+            parts.append(p_)
+        phase = np.concatenate(parts)
+    elif len(s) == 2 and s[0] == 'NEAR-EDGES':
+        return check_near_edges(case)
     elif len(s) == 2 and s[0] == 'BLOCKS':
         lens = [40, 600, 1000, 300, 700, 50]
         phase = np.concatenate([(np.arange(n_) + 0.37) / n_ * 2 * np.pi for n_ in lens])
@@ -223,9 +243,47 @@ def check_case(case):
     return Outcome(cls=cls, transitions=trans, viols=viols, nontrivial=(cls == 'mixed'))
 
 
+def check_near_edges(case):
+    """Tolerances e, e + 4e-7, e - 4e-7 used one after the other: each call is judged with ITS tolerance."""
+    from emd.cycles import get_cycle_vector, is_good, Cycles
+    s, ei, seed = case[:3]
+    e = EDGES[ei]
+    d = 2e-7
+    mid = [2.0, 3.0, 4.0, 4.5]
+    step = np.pi          # every boundary between these cycles is a drop of more than pi, every step inside one is smaller
+    cyc = [np.r_[e + d, mid, 6.2], np.r_[e - d, mid, 6.2], np.r_[0.01, mid, 2 * np.pi - e - d], np.r_[0.01, mid, 2 * np.pi - e + d],
+           np.r_[0.01, mid, 6.2]]
+    phase = np.concatenate(cyc)
+    viols = []
+    trans = 0
+    for edge in (e, e + 2 * d, e, e - 2 * d, e + 2 * d, np.round(e, 6), e):
+        want_good = [criteria(c_, edge) for c_ in cyc]
+        desc = 'near-tie cycles, phase_edge=%.9f (after other tolerances < 1e-6 away were used)' % edge
+        try:
+            got = np.asarray(get_cycle_vector(phase.copy(), return_good=True, phase_step=step, phase_edge=edge))[:, 0]
+            flags = [bool(is_good(c_.copy(), phase_edge=edge)) for c_ in cyc]
+            cflag = np.asarray(Cycles(phase.copy(), phase_step=step, phase_edge=edge).metrics['is_good']).astype(int).tolist()
+        except Exception as ex:
+            viols.append(('raise:near-edges:%s' % type(ex).__name__, '%s raised %r' % (desc, ex)))
+            continue
+        trans += 3
+        lab = []
+        k = 0
+        for c_, g in zip(cyc, want_good):
+            lab += [k if g else -1] * len(c_)
+            k += 1 if g else 0
+        if got.tolist() != lab:
+            viols.append(('good-labels:near-tolerances', '%s: labels %s expected %s' % (desc, got.tolist(), lab)))
+        if flags != want_good:
+            viols.append(('is_good:near-tolerances', '%s: is_good %s expected %s' % (desc, flags, want_good)))
+        if cflag != [int(g) for g in want_good]:
+            viols.append(('container-flag:near-tolerances', '%s: container flags %s expected %s' % (desc, cflag, want_good)))
+    return Outcome(cls='mixed', transitions=trans, viols=viols, nontrivial=True)
+
+
 def snippet(case, kind):
     s, ei, seed = case[:3]
-    if len(s) == 2 and s[0] in ('LONG', 'BLOCKS'):
+    if len(s) == 2 and s[0] in ('LONG', 'BLOCKS', 'SEAMS', 'NEAR-EDGES'):
         return None
     al = ALPHABETS[seed % len(ALPHABETS)]
     return ('import numpy as np, emd\n'
